@@ -188,6 +188,18 @@ func init() {
 	models["(*"+etreePkg+".Document).ReadFromBytes"] = func(in *Interp, fn *ssa.Function, a []Value) Value {
 		doc := a[0].(*Ptr)
 		content := in.stringOfBytes(a[1].(*SliceV))
+		// the parse contract is stated for etree's default ReadSettings only
+		dt := in.etreeType("Document")
+		rs := in.load(doc).(*StructV).F[fieldIndex(dt, "ReadSettings")]
+		def := zeroValue(in.etreeType("ReadSettings")).(*StructV)
+		rsv, _ := rs.(*StructV)
+		for i := range def.F {
+			if t, ok := rsv.F[i].(*smt.Term); ok {
+				if dtm, ok2 := def.F[i].(*smt.Term); ok2 && t.K == smt.KBool && (!t.Const || t.B != dtm.B) {
+					in.end("unmodelled", "etree ReadSettings differ from the defaults (field %d): the parse model does not apply at %s", i, in.where())
+				}
+			}
+		}
 		in.noteList("parsed", content.S)
 		in.event("etree.ReadFromBytes")
 		in.X.noteAssumption("etree.Document.ReadFromBytes: a function of the bytes; bytes produced by the scenario encoder parse to a fresh copy of the scenario tree, all other bytes fail to parse")
